@@ -178,6 +178,82 @@ def gen_coords(rng, maxn):
             'j': rng.randint(2, 21), 'scale': rng.choice([2, 0.5, -3, 10.0, 255])}
 
 
+def asym_support(rng, r, c):
+    """supports whose centroid differs from the centre of their bounding box and of the array"""
+    while True:
+        kind = rng.random()
+        m = [[0] * c for _ in range(r)]
+        if kind < 0.3:          # half disc
+            cr, cc = rng.uniform(1, r - 2), rng.uniform(1, c - 2)
+            rad = rng.uniform(1.5, max(r, c) / 2)
+            side = rng.choice(['u', 'd', 'l', 'r'])
+            for i in range(r):
+                for j in range(c):
+                    inside = (i - cr) ** 2 + (j - cc) ** 2 <= rad * rad
+                    half = {'u': i <= cr, 'd': i >= cr, 'l': j <= cc, 'r': j >= cc}[side]
+                    m[i][j] = 1 if inside and half else 0
+        elif kind < 0.6:        # L shape
+            r0, c0 = rng.randint(0, r - 2), rng.randint(0, c - 2)
+            h, w = rng.randint(2, r - r0), rng.randint(2, c - c0)
+            t = rng.randint(1, max(1, min(h, w) // 2))
+            for i in range(r0, r0 + h):
+                for j in range(c0, c0 + w):
+                    if i >= r0 + h - t or j < c0 + t:
+                        m[i][j] = 1
+        else:
+            m = rnd_mask(rng, r, c, p_zero=0.5)
+            m = [[1 if v else 0 for v in row] for row in m]
+        if sum(map(sum, m)) >= 3:
+            return m
+
+
+HIST_DTYPES = ['bool', 'bool', 'float64', 'uint8', 'int64', 'float32']
+
+
+def gen_history(rng, maxn):
+    r, c = rng.randint(3, maxn), rng.randint(3, maxn)
+    nf = rng.randint(2, 4)
+    fills = [asym_support(rng, r, c) for _ in range(nf)]
+    pat = rng.random()
+    if pat < 0.55:
+        order = list(range(nf))
+    elif pat < 0.8:                                  # the same support twice in a row, then another
+        order = [0, 0] + list(range(1, nf))
+    else:                                            # back to an earlier support
+        order = list(range(nf)) + [0]
+    modes = [1, 2, 3, 4] + sorted(rng.sample(range(5, 16), rng.randint(0, 3)))
+    if rng.random() < 0.3:
+        rng.shuffle(modes)
+    norm0 = rng.random() < 0.7
+    steps = []
+    for i in order[:4]:
+        steps.append({'fill': i, 'normalize': norm0 if rng.random() < 0.8 else (not norm0), 'vectorize': rng.random() < 0.3,
+                      'call': rng.choice(['basis', 'basis', 'basis+fit', 'fit', 'remove'])})
+    return {'op': 'history', 'dtype': rng.choice(HIST_DTYPES), 'fills': fills, 'modes': modes, 'steps': steps,
+            'opd': [rng.randint(-3, 3) for _ in range(4)]}
+
+
+def gen_seq(rng, jmax):
+    base = gen_mode(rng, jmax)
+    n = rng.randint(2, 5)
+    js = [rng.randint(1, jmax) for _ in range(n)]
+    if rng.random() < 0.7:                           # a tip/tilt mode somewhere before another mode
+        js[rng.randint(0, n - 2)] = rng.choice([2, 3])
+    if rng.random() < 0.3:
+        js[-1] = js[0]                               # the same mode again at the end
+    via = rng.choice(['zernike', 'zernike', 'basis', 'compose'])
+    nz0 = rng.random() < 0.5
+    calls = [[j, (nz0 if via != 'zernike' or rng.random() < 0.7 else (not nz0))] for j in js]
+    if via == 'compose':                             # zernike_compose evaluates modes 1..k in order
+        k = rng.randint(2, 6)
+        calls = [[j, nz0] for j in range(1, k + 1)]
+        base['coeffs'] = [rng.randint(-4, 4) for _ in range(k)]
+    base.pop('j')
+    base.pop('normalize')
+    base.update({'op': 'seq', 'via': via, 'calls': calls})
+    return base
+
+
 def generate(rng, tier):
     quick = tier == 'quick'
     # (1) zernike_index exhaustively, in blocks
@@ -212,9 +288,31 @@ def generate(rng, tier):
     # (4) default coordinates
     for _ in range(70 if quick else 900):
         yield gen_coords(rng, 7 if quick else 9)
+    # (5) call histories: one mask buffer refilled in place between zernike_basis / zernike_fit calls
+    prev = None
+    for k in range(45 if quick else 400):
+        if prev is not None and k % 3 == 1:
+            c = dict(prev)                          # the same supports in the reverse order
+            c['steps'] = [dict(s_) for s_ in reversed(prev['steps'])]
+        else:
+            c = gen_history(rng, 8 if quick else 10)
+        prev = c
+        yield c
+    # (6) call sequences on the same caller-supplied coordinate arrays
+    for _ in range(45 if quick else 400):
+        yield gen_seq(rng, 36 if quick else 91)
+
+
+def json_key(x):
+    import json
+    return json.dumps(x)
 
 
 def classify(c):
+    if c['op'] == 'history':
+        return 'history/' + c['dtype']
+    if c['op'] == 'seq':
+        return 'seq/' + c['via']
     if c['op'] == 'mode':
         return 'mode/' + ('norm' if c['normalize'] else 'raw')
     return c['op']
@@ -230,6 +328,10 @@ def nontrivial(c):
         return c['j'] >= 4 and any(flat) and len(flat) > 1
     if c['op'] in ('gram', 'bound'):
         return True
+    if c['op'] == 'history':
+        return len({json_key(c['fills'][s_['fill']]) for s_ in c['steps']}) >= 2
+    if c['op'] == 'seq':
+        return len(c['calls']) >= 2
     if c['op'] == 'coords':
         m = np.asarray(c['mask']) != 0
         r, cc = m.shape
@@ -260,10 +362,68 @@ def encode(c):
             for v in row:
                 out += C.enc_q(C.frac(v))
         return out
+    if c['op'] == 'history':
+        out = [5, len(c['steps'])]
+        for st in c['steps']:
+            m = c['fills'][st['fill']]
+            out += [len(m), len(m[0])]
+            for row in m:
+                for v in row:
+                    out += C.enc_q(C.frac(v))
+        return out
+    if c['op'] == 'seq':
+        out = [6, c['L'], len(c['calls'])]
+        for j, nz in c['calls']:
+            out += [j, 1 if nz else 0]
+        pts = []
+        for rr, tt, mm in zip(c['rho'], c['tk'], c['mask']):
+            for rho, tk, mv in zip(rr, tt, mm):
+                pts += C.enc_q(Fraction(rho)) + C.enc_q(Fraction(tk, c['L'])) + C.enc_q(C.frac(mv))
+        return out + [sum(len(r) for r in c['rho'])] + pts
     return None
 
 
+def read_mode(rd, L):
+    st = rd.z()
+    if st == 1:
+        return {'err': C.ERRNAMES[rd.z()]}
+    n2 = rd.z()
+    vals = rd.lst(rd.k)
+    out = []
+    for v in vals:
+        z = C.kval(v, L)
+        assert abs(z.imag) < 1e-9 * (1 + abs(z.real)), 'model value is not real'
+        out.append(math.sqrt(n2) * z.real)
+    return {'vals': out, 'norm2': n2}
+
+
+def read_coords(rd, npts):
+    st = rd.z()
+    if st == 1:
+        return {'err': C.ERRNAMES[rd.z()]}
+    cr, cc, rm2 = rd.q(), rd.q(), rd.q()
+    rho2, dx, dy = [], [], []
+    for _ in range(npts):
+        rho2.append(rd.q())
+        dx.append(rd.q())
+        dy.append(rd.q())
+    return {'origin': [cr, cc], 'rmax2': rm2, 'rho2': rho2, 'dx': dx, 'dy': dy}
+
+
 def decode(c, ints):
+    if c['op'] == 'history':
+        rd = C.Reader(ints)
+        rd.z()
+        m = c['fills'][0]
+        out = [read_coords(rd, len(m) * len(m[0])) for _ in c['steps']]
+        assert rd.done()
+        return {'steps': out}
+    if c['op'] == 'seq':
+        rd = C.Reader(ints, c['L'])
+        rd.z()
+        out = [read_mode(rd, c['L']) for _ in c['calls']]
+        assert rd.done()
+        return {'calls': out}
     if ints[0] == 1:
         return {'err': C.ERRNAMES[ints[1]]}
     if c['op'] == 'index_bulk':
@@ -330,8 +490,15 @@ def run_impl(c):
             res['zj_scaled'] = np.asarray(lentil.zernike(mask * c['scale'], j), dtype=float).tolist()
             res['zj_bool'] = np.asarray(lentil.zernike(mask != 0, j), dtype=float).tolist()
             res['zj_raw'] = np.asarray(lentil.zernike(mask, j, normalize=False), dtype=float).tolist()
+            sup = mask != 0
+            res['zj_dtypes'] = {dt: np.asarray(lentil.zernike(sup.astype(dt), j), dtype=float).tolist()
+                                for dt in ('uint8', 'int32', 'float32')}
             res['mask_changed'] = not np.array_equal(mask, keep)
             return res
+        if c['op'] == 'history':
+            return run_history(lentil, c)
+        if c['op'] == 'seq':
+            return run_seq(lentil, c)
         if c['op'] == 'gram':
             return {'gram_entry': gram_entry(lentil, c['j'], c['j2'], *c['nodes'])}
         if c['op'] == 'bound':
@@ -341,6 +508,89 @@ def run_impl(c):
     except Exception as e:
         return {'err': type(e).__name__}
     raise ValueError(c['op'])
+
+
+def opd_of(c, shape):
+    a, b, d, e = c['opd']
+    i, j = np.indices(shape, dtype=float)
+    return a + b * i + d * j + e * i * j / 4.0
+
+
+def run_history(lentil, c):
+    """one buffer object, refilled IN PLACE before every step; all references are computed afterwards on
+    fresh arrays, so that they cannot disturb whatever state the calls on the buffer build up"""
+    fills = [np.array(f) for f in c['fills']]
+    shape = fills[0].shape
+    buf = np.zeros(shape, dtype=c['dtype'])
+    modes = list(c['modes'])
+    opd = opd_of(c, shape)
+    steps = []
+    for st in c['steps']:
+        f = fills[st['fill']]
+        buf[...] = (f != 0) if c['dtype'] == 'bool' else f.astype(c['dtype'])
+        snap = buf.copy()
+        rec = {}
+        try:
+            if 'basis' in st['call']:
+                B = lentil.zernike_basis(buf, modes, vectorize=st['vectorize'], normalize=st['normalize'])
+                rec['basis'] = np.asarray(B, dtype=float).reshape((len(modes),) + shape).tolist()
+            if 'fit' in st['call']:
+                rec['fit'] = np.asarray(lentil.zernike_fit(opd * (snap != 0), buf, modes, normalize=st['normalize']),
+                                        dtype=float).tolist()
+            if st['call'] == 'remove':
+                rec['remove'] = np.asarray(lentil.zernike_remove(opd * (snap != 0), buf, modes), dtype=float).tolist()
+        except Exception as e:
+            rec['err'] = type(e).__name__
+        rec['buffer_changed'] = not np.array_equal(buf, snap)
+        steps.append(rec)
+    # references: the single-mode entry point and the same calls on fresh arrays, after the history
+    for st, rec in zip(c['steps'], steps):
+        f = fills[st['fill']]
+        fresh = (f != 0) if c['dtype'] == 'bool' else f.astype(c['dtype'])
+        try:
+            rec['ref_modes'] = [np.asarray(lentil.zernike(fresh.copy(), j, normalize=st['normalize']), dtype=float).tolist()
+                                for j in modes]
+            if 'fit' in rec:
+                rec['ref_fit'] = np.asarray(lentil.zernike_fit(opd * (fresh != 0), fresh.copy(), modes, normalize=st['normalize']),
+                                            dtype=float).tolist()
+            if 'remove' in rec:
+                rec['ref_remove'] = np.asarray(lentil.zernike_remove(opd * (fresh != 0), fresh.copy(), modes), dtype=float).tolist()
+        except Exception as e:
+            rec['ref_err'] = type(e).__name__
+    return {'steps': steps}
+
+
+def run_seq(lentil, c):
+    """several modes evaluated on the SAME caller-owned rho/theta arrays"""
+    L = c['L']
+    rho = np.array([[float(Fraction(v)) for v in row] for row in c['rho']], dtype=float)
+    theta = np.array([[2 * math.pi * k / L for k in row] for row in c['tk']], dtype=float)
+    rho0, theta0 = rho.copy(), theta.copy()
+    mask = np.array(c['mask'])
+    live, then = [], []
+    res = {}
+    if c['via'] == 'zernike':
+        for j, nz in c['calls']:
+            z = lentil.zernike(mask, j, normalize=nz, rho=rho, theta=theta)
+            live.append(z)
+            then.append(np.array(z, dtype=float).ravel().tolist())
+    elif c['via'] == 'basis':
+        B = lentil.zernike_basis(mask, [j for j, _ in c['calls']], normalize=c['calls'][0][1], rho=rho, theta=theta)
+        live = [B[k] for k in range(len(c['calls']))]
+        then = [np.array(b, dtype=float).ravel().tolist() for b in live]
+    else:
+        nz = c['calls'][0][1]
+        res['composed'] = np.asarray(lentil.zernike_compose(mask, c['coeffs'], normalize=nz, rho=rho, theta=theta),
+                                     dtype=float).ravel().tolist()
+        for j, _ in c['calls']:          # afterwards, on the same arrays
+            z = lentil.zernike(mask, j, normalize=nz, rho=rho, theta=theta)
+            live.append(z)
+            then.append(np.array(z, dtype=float).ravel().tolist())
+    res['then'] = then
+    res['end'] = [np.array(z, dtype=float).ravel().tolist() for z in live]
+    res['rho_changed'] = not np.array_equal(rho, rho0)
+    res['theta_changed'] = not np.array_equal(theta, theta0)
+    return res
 
 
 def quad_nodes(nr_, nt):
@@ -408,7 +658,52 @@ def gram_mismatch(theta, dx, dy, tol=1e-9):
     return None
 
 
+def radial_from_rho2(n, rho2):
+    """R_n^0 as a polynomial in rho^2 (exact)"""
+    return sum(cf * Fraction(rho2) ** (p // 2) for cf, p in radial_coeffs(n, 0))
+
+
+def sub_mode_case(c, j, nz):
+    return {'op': 'mode', 'j': j, 'normalize': nz, 'L': c['L'], 'rho': c['rho'], 'tk': c['tk'], 'mask': c['mask']}
+
+
+def compare_history(c, impl, model):
+    """the radially symmetric modes of every zernike_basis call against the model's rho^2 for the support
+    that is in the buffer at that moment"""
+    for k, (st, rec, mo) in enumerate(zip(c['steps'], impl['steps'], model['steps'])):
+        if 'err' in mo or 'basis' not in rec:
+            continue
+        sup = np.asarray(c['fills'][st['fill']]) != 0
+        for idx, j in enumerate(c['modes']):
+            m, n = noll_textbook(j)
+            if m != 0:
+                continue
+            N = norm_textbook(m, n, st['normalize'])
+            got = np.asarray(rec['basis'][idx], dtype=float).ravel()
+            for q, (r2, inside) in enumerate(zip(mo['rho2'], sup.ravel())):
+                e = N * float(radial_from_rho2(n, r2)) if inside else 0.0
+                if not abs(got[q] - e) <= TOL * (1 + abs(e)) + 256 * EPS * N * radial_cond(n, 0, math.sqrt(float(r2))):
+                    return (f'step {k} (buffer refilled in place with support #{st["fill"]}): zernike_basis mode {j} at flat index {q} '
+                            f'is {got[q]!r}, model (coordinates of the support now in the buffer) {e!r}')
+    return None
+
+
+def compare_seq(c, impl, model):
+    for k, ((j, nz), mo) in enumerate(zip(c['calls'], model['calls'])):
+        if 'err' in mo:
+            continue
+        sub = sub_mode_case(c, j, nz)
+        msg = compare(sub, {'vals': impl['then'][k]}, mo)
+        if msg:
+            return f'call {k} of the sequence on shared rho/theta arrays: {msg}'
+    return None
+
+
 def compare(c, impl, model):
+    if c['op'] == 'history':
+        return compare_history(c, impl, model)
+    if c['op'] == 'seq':
+        return None if 'err' in impl else compare_seq(c, impl, model)
     if ('err' in impl) != ('err' in model):
         return f'implementation {impl.get("err", "returned a value")}, model {model.get("err", "returned a value")}'
     if 'err' in impl:
@@ -550,11 +845,18 @@ def oracle(c, impl):
             k = np.unravel_index(np.argmax(np.abs(zj - exp) - tol), mb.shape)
             return (f'zernike(mask, {c["j"]}) with default coordinates differs from the mode evaluated at zernike_coordinates(mask): '
                     f'[{k[0]},{k[1]}] {zj[k]!r} vs {exp[k]!r}')
+        for dt, v in impl.get('zj_dtypes', {}).items():
+            if not np.array_equal(np.asarray(v, dtype=float), zj):
+                return f'zernike(mask, {c["j"]}) changes when the same support is given as a {dt} array'
         raw = np.asarray(impl['zj_raw'], dtype=float)
         N = norm_textbook(m, n, True)
         if not np.all(np.abs(raw * N - zj) <= 1e-12 * (1 + np.abs(zj))):
             return f'normalize=True is not normalize=False times sqrt({"n+1" if m == 0 else "2(n+1)"}) for j={c["j"]}'
         return None
+    if c['op'] == 'history':
+        return oracle_history(c, impl)
+    if c['op'] == 'seq':
+        return oracle_seq(c, impl)
     if c['op'] == 'gram':
         if 'err' in impl:
             return f'zernike raised {impl["err"]}'
@@ -567,6 +869,88 @@ def oracle(c, impl):
             return f'zernike raised {impl["err"]}'
         return None if impl['abs_value'] <= 1 + 1e-7 else (f'|Z_{c["j"]}| = {impl["abs_value"]!r} > 1 without normalisation at '
                                                             f'rho={c["rho"]!r}, theta={c["theta"]!r}')
+    return None
+
+
+def history_text(c, k):
+    h = ', '.join(f'#{s_["fill"]}:{s_["call"]}' for s_ in c['steps'][:k + 1])
+    return f'one {c["dtype"]} buffer refilled in place, calls so far [{h}]'
+
+
+def oracle_history(c, impl):
+    """every call on the re-used buffer must describe the support the buffer holds NOW: checks that need no
+    model and no other lentil call (zero outside, tilts centred on the centroid, radial modes textbook about the
+    centroid with rho = 1 at the farthest sample), then equality with the same request made on a fresh array"""
+    modes = c['modes']
+    for k, (st, rec) in enumerate(zip(c['steps'], impl['steps'])):
+        where = f'step {k} ({history_text(c, k)})'
+        if 'err' in rec or 'ref_err' in rec:
+            return f'{where}: raised {rec.get("err") or rec.get("ref_err")}'
+        if rec.get('buffer_changed'):
+            return f'{where}: the caller\'s mask buffer was modified'
+        sup = np.asarray(c['fills'][st['fill']]) != 0
+        r, cc_ = sup.shape
+        npix = int(sup.sum())
+        cr, cc = centroid_exact(sup)
+        d2 = np.array([[float((i - cr) ** 2 + (j - cc) ** 2) for j in range(cc_)] for i in range(r)])
+        dmax2 = d2[sup].max()
+        if 'basis' in rec:
+            B = np.asarray(rec['basis'], dtype=float)
+            for idx, j in enumerate(modes):
+                m, n = noll_textbook(j)
+                N = norm_textbook(m, n, st['normalize'])
+                z = B[idx]
+                if np.any(z[~sup] != 0):
+                    return f'{where}: zernike_basis mode {j} is non-zero outside the current support'
+                if dmax2 > 0 and m == 0:
+                    rho = np.sqrt(d2 / dmax2)
+                    e = N * sum(cf * rho ** p for cf, p in radial_coeffs(n, 0)) * sup
+                    tol = TOL * (1 + np.abs(e)) + 256 * EPS * N * sum(abs(cf) * rho ** p for cf, p in radial_coeffs(n, 0))
+                    if not np.all(np.abs(z - e) <= tol):
+                        q = np.unravel_index(np.argmax(np.abs(z - e) - tol), z.shape)
+                        return (f'{where}: zernike_basis mode {j} [{q[0]},{q[1]}] = {z[q]!r}; about the centroid of the support now in the '
+                                f'buffer ({float(cr):.6g}, {float(cc):.6g}) with rho = 1 at its farthest sample it is {e[q]!r}')
+                if dmax2 > 0 and n == 1:
+                    # 2 rho cos/sin(theta + any fixed rotation) sums to zero over the support iff the origin is its centroid
+                    if not abs(z[sup].sum()) <= 1e-9 * npix * N * max(1.0, float(np.sqrt(d2.max() / dmax2))):
+                        return (f'{where}: zernike_basis tilt mode {j} sums to {z[sup].sum()!r} over the support: '
+                                f'the polar origin is not the centroid of the support now in the buffer')
+            ref = np.asarray(rec['ref_modes'], dtype=float)
+            if not np.all(np.abs(B - ref) <= TOL * (1 + np.abs(ref))):
+                q = np.unravel_index(np.argmax(np.abs(B - ref)), B.shape)
+                return (f'{where}: zernike_basis mode {modes[q[0]]} [{q[1]},{q[2]}] = {B[q]!r} but lentil.zernike on a fresh copy of the '
+                        f'same mask gives {ref[q]!r}: the result depends on the call history, not on the support')
+        for key, name in (('fit', 'zernike_fit'), ('remove', 'zernike_remove')):
+            if key in rec:
+                a = np.asarray(rec[key], dtype=float)
+                b = np.asarray(rec['ref_' + key], dtype=float)
+                if a.shape != b.shape or not np.all(np.abs(a - b) <= 1e-7 * (1 + np.max(np.abs(b)))):
+                    return (f'{where}: {name} on the re-used buffer differs from the same call on a fresh copy of the mask '
+                            f'(max |diff| {float(np.max(np.abs(a - b))) if a.shape == b.shape else "shape"}): '
+                            f'its default-coordinate basis depends on the call history')
+    return None
+
+
+def oracle_seq(c, impl):
+    if 'err' in impl:
+        return f'sequence on shared coordinates raised {impl["err"]}'
+    for k, (j, nz) in enumerate(c['calls']):
+        sub = sub_mode_case(c, j, nz)
+        for key, when in (('then', 'as returned'), ('end', 'as held by the caller after the later calls')):
+            msg = oracle(sub, {'vals': impl[key][k]})
+            if msg:
+                hist = ', '.join(f'{a}' for a, _ in c['calls'][:k + 1] if True)
+                extra_ = ''
+                if impl.get('rho_changed') or impl.get('theta_changed'):
+                    extra_ = ' (the caller\'s ' + ('rho' if impl.get('rho_changed') else 'theta') + ' array was overwritten)'
+                return (f'call {k} of modes [{hist}] via {c["via"]} on the same caller-supplied rho/theta arrays, {when}: {msg}{extra_}')
+    if c['via'] == 'compose':
+        exp = np.zeros(len(impl['then'][0]))
+        for cf, z in zip(c['coeffs'], impl['then']):
+            exp += cf * np.asarray(z)
+        got = np.asarray(impl['composed'])
+        if not np.all(np.abs(got - exp) <= 1e-9 * (1 + np.abs(exp)) * max(1, len(c['coeffs']))):
+            return 'zernike_compose on caller-supplied coordinates is not the coefficient-weighted sum of the modes 1..k'
     return None
 
 
@@ -613,3 +997,36 @@ def extra(tier, rng):
     z3 = float(np.asarray(lentil.zernike(np.ones((1, 1)), 3, rho=np.ones((1, 1)), theta=np.full((1, 1), np.pi / 2)))[0, 0])
     report['sine_sign_observed'] = 'Z3(rho=1, theta=pi/2) = %r (code: sin(m theta) with m < 0)' % z3
     return {'report': report, 'violations': violations}
+
+
+# ------------------------------------------------------------------ WP-T2: translation layer (source -> Gallina)
+# An ADDITIONAL tie: harness/gen_src.py (suite 'C11') translates the integer part of lentil/zernike.py:zernike_index (after the float row formula) from the CURRENT source
+# text into coq/theories/Gen/ZernikeSrc.v; Proofs/ZernikeSrcP.v proves every translated term equal to the model for all integers;
+# Properties/C11Src.v states it.  Policy (as for C06): a function the translator refuses is only reported
+# (coverage.extra.source_translation.refused); a translated function whose equivalence lemma no longer compiles is a
+# VIOLATION with a witness searched on an exhaustive small box (replayable: op 'src').  The build of C11Src happens
+# here, never in COQ_TARGETS.  The checks of the `extra` defined above are kept unchanged; their report is extended.
+_extra_before_src_layer = extra
+
+
+def extra(tier, rng):
+    from .. import gen_src as G
+    try:
+        base = _extra_before_src_layer(tier, rng)
+    except Exception as e:          # keep the translation layer's verdict when the other checks cannot even run
+        import traceback
+        base = {'report': {'error': traceback.format_exc()[-800:]},
+                'violations': [{'case': None, 'impl': None,
+                                'what': f'extra: the checks preceding the translation layer raised {type(e).__name__}: {e}'}]}
+    layer = G.run_layer('C11', ID, tier, rng, C)
+    report = dict(base.get('report', {}))
+    report['source_translation'] = layer['report']
+    return {'report': report, 'violations': list(base.get('violations', [])) + layer['violations']}
+
+
+def _wrap_src_replay():
+    from .. import gen_src as G
+    return G.wrap_replay(run_impl, oracle, C)
+
+
+run_impl, oracle = _wrap_src_replay()
